@@ -1291,13 +1291,13 @@ TERM_SUBS = [
 ]
 
 
-def roundtrip(gtext, text, kind='lalr', history=()):
+def roundtrip(gtext, text, kind='lalr', history=(), term_subs=None):
     """the property's oracle on one input, reconstructed by a Reconstructor that has already reconstructed the
     trees of `history` (the object caches one matching parser per node kind): None if it holds, else a description"""
     import lark
     from lark.reconstruct import Reconstructor
     p = make_parser(gtext, kind)
-    rec = Reconstructor(p)
+    rec = Reconstructor(p, term_subs) if term_subs else Reconstructor(p)
     for h in history:
         try:
             with_timeout(20, rec.reconstruct, p.parse(h))
@@ -1387,6 +1387,61 @@ def lex_case(gtext, texts):
     return out
 
 
+
+# ----------------------------------------------------------------------------------------------------
+# systematic corner families evaluated by the round-trip oracle itself (fixed grammars, every order of the inputs on ONE
+# Reconstructor): an alias shared by alternatives of several rules (the aliased node below the first / a later rule, the
+# alias repeated inside one rule), and term_subs callbacks returning a plain str or a Token (a str subclass, as in lark's
+# examples/advanced/reconstruct_python.py) with several nodes of the same shape in one history
+LEX_TAIL = 'NAME: /[a-z]+/\nNUMBER: /[0-9]+/\n%ignore " "\n'
+SHARED_ALIAS = [
+    ('start: stmt+\nstmt: "type" NAME "=" type_ ";" -> typedef\n | NAME "=" value ";" -> assign\n'
+     '?type_: NAME\n | NAME "<" NAME ">" -> apply\n?value: NUMBER\n | NAME "(" NUMBER ")" -> apply\n' + LEX_TAIL,
+     ['x = f(3); y = 4; type u = int;', 'type t = list<int>; x = f(3);', 'type a = b<c>; type d = e;', 'x = 1;']),
+    ('start: (a | b | c)+\na: "<" NAME ">" -> node\n | "a" NAME\nb: "[" NUMBER NUMBER "]" -> node\n | "b" NUMBER\n'
+     'c: "{" NAME NUMBER "}" -> node\n | "(" NUMBER NAME NAME ")" -> node\n | "c" NAME NAME\n' + LEX_TAIL,
+     ['<x>', '[1 2] <y>', '{z 3} (4 p q)', 'a x b 1 c u v', '<x> [1 2] {z 3} (4 p q) a w']),
+    ('start: item+\n?item: "!" NAME -> mark\n | "(" item ")"\n | other\n?other: "?" NUMBER NUMBER -> mark\n | NUMBER\n' + LEX_TAIL,
+     ['! a', '? 1 2', '( ! a ) 3 ? 4 5', '( ( 7 ) )']),
+]
+SUBS_FAMILY = [
+    ('start: stmt+\nstmt: NAME "=" value _NL\n?value: NUMBER\n | NAME\n | "-" NUMBER -> neg\n_NL: /;+/\n' + LEX_TAIL,
+     {'_NL': ';'}, ['a = 1 ;', 'a = 1 ; b = c ;;', 'a = 1 ; b = 2 ; c = - 3 ; d = e ; e = - 4 ;']),
+] + [(g, subs, inputs) for g, subs, inputs in TERM_SUBS]
+
+
+def family_stream(ctx):
+    from lark import Token
+    from lark.exceptions import LarkError
+
+    def run(stream, g, texts, kind, order, mk_subs, label):
+        hist = []
+        for tx in order:
+            try:
+                bad = roundtrip(g, tx, kind, history=tuple(hist), term_subs=mk_subs() if mk_subs else None)
+            except LarkError as e:
+                bad = 'raised %s' % type(e).__name__
+            except Exception as e:   # noqa
+                bad = 'raised %s' % type(e).__name__
+            ctx.count(stream, key=(g, kind, tuple(hist), tx, label), nontrivial=True)
+            if bad:
+                ctx.violation('roundtrip-oracle', dict(grammar=g, text=tx, parser=kind, history=list(hist),
+                                                       term_subs=label, detail=bad), True,
+                              '%s (%s): %s' % (stream, label or 'no term_subs', bad))
+                return
+            hist.append(tx)
+    for g, texts in SHARED_ALIAS:
+        for kind in ('lalr', 'earley'):
+            for k in range(len(texts)):
+                run('shared-alias', g, texts, kind, texts[k:] + texts[:k], None, None)
+    for g, subs, texts in SUBS_FAMILY:
+        for kind in ('lalr', 'earley'):
+            for label, mk in (('str', lambda: {k: (lambda sym, v=v: v) for k, v in subs.items()}),
+                              ('Token', lambda: {k: (lambda sym, v=v: Token(sym.name, v)) for k, v in subs.items()})):
+                for k in range(min(2, len(texts))):
+                    run('term_subs-family', g, texts, kind, texts[k:] + texts[:k], mk, label)
+
+
 def idc_stream(ctx):
     """is_id_continue on the ASCII range: lark.utils.is_id_continue and unicodedata.category against the model's
     is_id_continue and the category table behind the regenerated category tuple (Recons/GenBase.ascii_cat)"""
@@ -1414,6 +1469,7 @@ def correspond(ctx):
     rng = ctx.rng
     name_collision_stream(ctx)
     idc_stream(ctx)
+    family_stream(ctx)
     lex_cases = []
     rx_cases, rx_meta = [], []
     sf_cases, sf_meta = [], []
@@ -1676,6 +1732,13 @@ def replay(ctx, case):
     if 'grammar' not in w or 'text' not in w:
         return False
     try:
-        return roundtrip(w['grammar'], w['text'], w.get('parser', 'lalr'), history=w.get('history') or ()) is not None
+        subs = None
+        if w.get('term_subs') in ('str', 'Token'):
+            from lark import Token
+            tbl = dict(pair for g, sb, _ in SUBS_FAMILY if g == w['grammar'] for pair in sb.items())
+            subs = {k: ((lambda sym, v=v: Token(sym.name, v)) if w['term_subs'] == 'Token' else (lambda sym, v=v: v))
+                    for k, v in tbl.items()}
+        return roundtrip(w['grammar'], w['text'], w.get('parser', 'lalr'), history=w.get('history') or (),
+                         term_subs=subs) is not None
     except Exception:   # noqa
         return False
